@@ -246,7 +246,9 @@ func subdecRun(r *tr.Run, rng *rand.Rand, waitCancel bool) {
 
 // subdecCloseHammer: many rounds of two Close calls on a fresh decorator that are held where the inner Close has returned and let go
 // together, so that they give the closing signal at the same instant. Only anomalies (a panic, a call that does not return) are logged.
-func subdecCloseHammer(r *tr.Run, rounds int) {
+// strict (C20, transparency: every Close call passes through to the inner subscriber): a Close call that never reaches the inner
+// subscriber is reported; otherwise (C07) the hammer just ends there.
+func subdecCloseHammer(r *tr.Run, rounds int, strict bool) {
 	for i := 0; i < rounds; i++ {
 		inner := scripted.NewSub("inner")
 		dec, err := message.MessageTransformSubscriberDecorator(func(*message.Message) {})(inner)
@@ -266,14 +268,23 @@ func subdecCloseHammer(r *tr.Run, rounds int) {
 				}
 			}()
 		}
-		deadline := time.Now().Add(HangBound / 4)
+		deadline := time.Now().Add(HangBound / 10)
 		for g.Arrivals() < 2 && time.Now().Before(deadline) {
 			runtime.Gosched()
 		}
+		both := g.Arrivals() >= 2
 		g.Release()
 		if !WaitOrHang(waitWG(&wg)) {
 			r.Emit("hung", "what", "two Close calls abreast", "round", i)
 			return
+		}
+		if !both {
+			// one of the calls came back (or stays away) without having been through the inner Close: nothing to race here
+			if strict {
+				r.Emit("hung", "what", "a Close call on the decorator never reached the inner subscriber's Close", "round", i)
+				return
+			}
+			break
 		}
 	}
 	r.Emit("end")
